@@ -5,7 +5,7 @@
 Require Extraction.
 Require Import ExtrOcamlBasic.
 From Coq Require Import ZArith NArith List.
-From RQ Require Import Base Apply ApplySpec Distributor Parser Writer Quilt DiffCheck DiffGen ModelChecks.
+From RQ Require Import Base Apply ApplySpec Distributor Parser Writer Quilt DiffCheck DiffGen ModelChecks HardLinks.
 
 Definition dist_N := Distributor.distribute N N.eqb.
 Definition classes_ok_N := Distributor.classes_ok N N.eqb.
@@ -18,4 +18,5 @@ Definition hunks_of_B := DiffGen.hunks_of bytes.
 
 Extraction "model.ml" dist_N classes_ok_N apply_N rollback_N placements_ok_N rewrite_ok_N
   parse_patch write_patch write_rej strip_path is_unsafe components
-  cmd_push resolve_range overlay_wf normalize read_series split_lines concat_lines c01_check apply_B to_fpatch hunks_of_B.
+  cmd_push resolve_range overlay_wf normalize read_series split_lines concat_lines c01_check apply_B to_fpatch hunks_of_B
+  irun nrun ilookup.
